@@ -30,7 +30,7 @@ type keyTable struct {
 	// many: pointer to a slice of records carrying the keys
 	many func(rows []pred.Row, ks []int) interface{}
 	// marked: a record with Mark = markVal (and the key of row k unless k < 0), as value or pointer
-	marked func(rows []pred.Row, k int, ptr bool) interface{}
+	marked   func(rows []pred.Row, k int, ptr bool) interface{}
 	uidField string
 	lit      func(rows []pred.Row, k int) string
 }
@@ -140,7 +140,7 @@ var keyTables = []keyTable{
 			return v
 		},
 		uidField: "ID",
-		lit: func(rows []pred.Row, k int) string { return fmt.Sprintf("Row{ID: %d}", rowID(rows, k)) },
+		lit:      func(rows []pred.Row, k int) string { return fmt.Sprintf("Row{ID: %d}", rowID(rows, k)) },
 	},
 	{
 		name: "rwsd", soft: true, uidCol: "id",
@@ -160,7 +160,7 @@ var keyTables = []keyTable{
 			return v
 		},
 		uidField: "ID",
-		lit: func(rows []pred.Row, k int) string { return fmt.Sprintf("SRow{ID: %d}", rowID(rows, k)) },
+		lit:      func(rows []pred.Row, k int) string { return fmt.Sprintf("SRow{ID: %d}", rowID(rows, k)) },
 	},
 	{
 		name: "rwc", uidCol: "uid",
